@@ -85,6 +85,7 @@ struct PSession {
     bool array_root = false;
     std::string labels;                 // structural labels of the delivered bytes
     bool guard_lookups = true;
+    binson_writer *ext_writer = nullptr; // optional long-lived writer for to_writer with op.c == 1 (owned by the engine)
     bool use_cb = true;                 // false: the application installs no token callback (the library's `cb == NULL` paths run; steps are then not counted)
     int guard_mode = 0;
     bool inited = false;                // at least one init call has been made (struct no longer pure garbage)
